@@ -39,12 +39,13 @@ T_NOTE = S_NOTE + " C17 additionally: built with the sandbox's nightly toolchain
 
 K_NOTE = ("Trusted base: Kani 0.68 (MIR -> GOTO translation, its pinned nightly toolchain) and CBMC 6.11 with CaDiCaL; unwinding assertions on. "
           "Stubs: alloc::fmt::format and std::backtrace::Backtrace::capture in the numeric-conversion harnesses (error text is not part of the property). "
-          "Outside the claim: byte strings longer than 10 bytes (9 per concat operand), Hex::Bytes(_, len>8), print/from_str (formatting).")
-K_TECH = "Kani proof harnesses over kani::any() inputs, decided by CBMC/CaDiCaL (bounded: unwind 12, unwinding assertions)"
+          "Outside the claim: byte strings longer than 10 bytes (9 per concat operand), Hex::Bytes(_, len>8). C15's print/from_str clause runs on engine S (own IR executor + z3, nightly -Zbuild-std IR).")
+K_TECH = "Kani proof harnesses over kani::any() inputs, decided by CBMC/CaDiCaL (bounded: unwind 12, unwinding assertions); C15's print/parse clause: symbolic execution of the LLVM IR + z3"
 KCHECKS = {
     'C15': ("model_checking", "Bounded model checking of the compiled Hex code for ALL byte strings of 0..=10 bytes in both representations (inline with arbitrary padding, heap), "
             "every index and every bound of the six range kinds as unconstrained usize: ok-harnesses compare with the byte slice, panic-harnesses show every path panics exactly "
-            "when the slice index would. Equality across representations; i64/f64 conversions bit-exact, Err iff length != 8. print/from_str round trip is NOT covered here.", "4 C15"),
+            "when the slice index would. Equality across representations; i64/f64 conversions bit-exact, Err iff length != 8. The clause from_str(print(h)) == h, which Kani cannot finish for a single byte, "
+            "is decided by engine S on the LLVM IR incl. core::fmt (-Zbuild-std): every byte symbolic, lengths 0..=8 (quick) / 0..=10 (thorough), both representations.", "4 C15"),
     'C16': ("model_checking", "All pairs of byte strings of 0..=9 bytes in the four representation combinations: outside the region of the recorded finding concat is exact "
             "byte-string concatenation and leaves operands unchanged; inside the region the solver's counterexample is reported as KNOWN-FINDING.", "4 C16"),
 }
